@@ -78,7 +78,7 @@ func runC01(ctx *h.Ctx) int {
 			if opt {
 				tag = "optimize=true"
 			}
-			if !vmCheck(k, prog, res.Out, vmCheckOpts{NStates: nStates, Cands: g.Cands()}, tag) {
+			if !vmCheck(k, prog, res.Out, vmCheckOpts{NStates: nStates, Cands: g.Cands(), Orig: prog, Optimize: opt}, tag) {
 				return
 			}
 		}
